@@ -1123,6 +1123,9 @@ func init() {
 	registerRefStubs()
 }
 
+// float32Halfway = 2^128 - 2^103: the largest float64 whose shortest decimal still parses as a finite float32
+var float32Halfway = math.Float64frombits(0x47EFFFFFF0000000)
+
 func fpToBits(t *Term) *Term {
 	if t.conc() {
 		return cBV(t.C, t.W)
@@ -1232,7 +1235,10 @@ func (e *Exec) numConvert(target string, bits int, native func(string) (Value, e
 		switch {
 		case target == "float32":
 			if ns.Kind == "float" {
-				okT = andT(notT(mk(OFpIsNaN, 0, x)), mk(OFpLe, 0, mk(OFpAbs, 0, x), cFP(math.MaxFloat32, 64)))
+				// strconv.ParseFloat(shortest decimal of x, 32) fails exactly when that decimal rounds to an
+				// infinite float32: for finite x, when |x| > 2^128 - 2^103 (the halfway point itself prints as a
+				// decimal just below it and rounds down); "NaN" and "+Inf" parse without error
+				okT = orT(orT(mk(OFpIsNaN, 0, x), mk(OFpIsInf, 0, x)), mk(OFpLe, 0, mk(OFpAbs, 0, x), cFP(float32Halfway, 64)))
 				conv = mk(OFpToFp, 32, x)
 			} else {
 				okT = tTrue
